@@ -72,6 +72,9 @@ def analyse_try_from_iter(ctx, cfg, fn, MAX):
         return out
 
     ctx.assumptions.add('try_from_iter: every input CharSet is well formed (start <= end <= MAX_CHAR); sort_by_key yields a permutation ordered by the key (std, trusted)')
+    if any(l.get('name') and l['ty'] == 'std::option::Option<u32>' for l in fn.locals[fn.arg_count + 1:]):
+        # the previous interval is remembered as the Option of its end instead of a reference to it: same proof, other state
+        return by_option_of_previous_end(ctx, cfg, fn, MAX, V, S, E, items, hyps)
     ip = X.Interp(cr, loop_candidates=cands)
     ip.hyps = hyps
     st = ip.start_state(fn, arg_names=['a0'])
@@ -153,6 +156,10 @@ def analyse_try_from_iter(ctx, cfg, fn, MAX):
         okw = bool(ws)
         ctx.obligation(okw)
         (ctx.ok if okw else ctx.violation)('C11.R5', 'C11.R5/try_from_iter/witness-tracked', fn.path, fn.site(), None, cfg)
+    delegates(ctx, cfg)
+
+
+def delegates(ctx, cfg):
     # try_from_list delegates
     an = analyse(ctx, cfg, CP + '::try_from_list', [], uninterpreted=lambda p: p == CP + '::try_from_iter')
     for o in an.rets:
@@ -160,3 +167,122 @@ def analyse_try_from_iter(ctx, cfg, fn, MAX):
         ok = t[0] == 'call' and t[1] == CP + '::try_from_iter' and 'a0' in T.show(t[2][0])
         ctx.obligation(ok)
         (ctx.ok if ok else ctx.violation)('C11.R5', 'C11.R5/try_from_list/delegates', an.fn.path, an.fn.site(), {'returned': T.show(t)[:160]}, cfg)
+
+
+def by_option_of_previous_end(ctx, cfg, fn, MAX, V, S, E, items, hyps):
+    """One loop over the whole sorted vector with  prev_end: Option<u32>.  Invariants proposed:
+         prev_end is None exactly at position 0;  Some(e) => e = end of the element before the current one;
+         witness = 0 while nothing was seen, else witness <= e + 1.
+    Obligations as in the reference form: Err only for an adjacent pair that overlaps, the loop continues only past a
+    pair with prev.end < c.start, prev_end becomes Some(c.end), the witness is stepped as CharPartition::push does, Ok
+    returns the sorted vector and the witness, the empty input gives witness 0."""
+    cr = ctx.crate(cfg)
+    OPT = 'std::option::Option<u32>'
+
+    def opt_vars(st, fr):
+        out = []
+        for l, c in enumerate(fr.cells):
+            v = c.v
+            if isinstance(v, X.Sym) and (v.ty or '').startswith('std::option::Option') and isinstance(v.term, tuple) and v.term[0] == 'var' and '@bb' in v.term[1]:
+                out.append((l, v.term))
+        return out
+
+    def D(pe):
+        return T.typed(('discr', pe), 'isize')
+
+    def PAY(pe):
+        return T.typed(('vfld', pe, 'Some', '0'), 'u32')
+
+    def cands(ip, entry, s0, f0, head, mapping):
+        out = []
+        poss = [hv for hv, ev in mapping if T.TYPES.get(hv) == 'usize']
+        ws = [hv for hv, ev in mapping if T.TYPES.get(hv) == 'u32']
+        for l, pe in opt_vars(s0, f0):
+            T.TYPES.setdefault(('#nvariants', pe), 2)
+            for k in poss:
+                out.append(T.mk_iff(eq(k, I(0)), eq(D(pe), I(0))))
+                out.append(T.mk_implies(eq(D(pe), I(1)), eq(PAY(pe), E(T.mk_sub(k, I(1))))))
+                out.append(T.mk_implies(eq(D(pe), I(1)), le(I(1), k)))
+            for w in ws:
+                out.append(T.mk_implies(eq(D(pe), I(1)), le(w, T.mk_add(PAY(pe), I(1)))))
+                out.append(T.mk_implies(eq(D(pe), I(0)), eq(w, I(0))))
+        for w in ws:
+            out.append(le(w, I(MAX + 1)))
+        return out
+
+    ip = X.Interp(cr, loop_candidates=cands)
+    ip.hyps = hyps
+    st = ip.start_state(fn, arg_names=['a0'])
+    outs = ip.run(st)
+    ctx.absorb(ip, fn.path)
+    backs = [b for b in ip.back_states if b[0] == fn.path]
+    heads = [h for h in ip.head_states if h[0] == fn.path]
+    ok = len(backs) >= 2 and len(heads) >= 1
+    ctx.obligation(ok)
+    (ctx.ok if ok else ctx.violation)('C11.R5', 'C11.R5/try_from_iter/loop-shape', fn.path, fn.site(), {'heads': len(heads), 'back_edges': len(backs)}, cfg)
+    if not ok:
+        return
+    hst = heads[0][2]
+    ovs = opt_vars(hst, hst.frames[-1])
+    for (_, head, bst, bmap, valid, cur) in backs:
+        poss = [hv for hv, ev in bmap if T.TYPES.get(hv) == 'usize']
+        ws = [hv for hv, ev in bmap if T.TYPES.get(hv) == 'u32']
+        ok = len(poss) == 1 and len(ws) == 1 and len(ovs) == 1
+        if not ok:
+            ctx.obligation(False)
+            ctx.violation('C11.R5', 'C11.R5/try_from_iter/head-variables', fn.path, fn.site(), {'mapping': [T.show(a) for a, b in bmap], 'options': [T.show(x[1]) for x in ovs]}, cfg)
+            continue
+        k, w = poss[0], ws[0]
+        l_pe, pe = ovs[0]
+        cs, ce = S(k), E(k)
+        inv = [T.mk_iff(eq(k, I(0)), eq(D(pe), I(0))), T.mk_implies(eq(D(pe), I(1)), eq(PAY(pe), E(T.mk_sub(k, I(1))))),
+               T.mk_implies(eq(D(pe), I(1)), le(w, T.mk_add(PAY(pe), I(1)))), T.mk_implies(eq(D(pe), I(0)), eq(w, I(0)))]
+        okinv = all(f in valid for f in inv)
+        ctx.obligation(okinv)
+        (ctx.ok if okinv else ctx.violation)('C11.R5', 'C11.R5/try_from_iter/invariant:prev-is-predecessor-and-witness-bounded', fn.path, fn.site(), {'surviving': [T.show(c)[:120] for c in valid]}, cfg)
+        newpe = bst.frames[-1].cells[l_pe].v
+        becomes = isinstance(newpe, X.Adt) and newpe.variant == 'Some' and isinstance(newpe.xs[0], tuple) and ip.entails(bst, eq(newpe.xs[0], ce))
+        goals = [('continues-only-past-a-disjoint-pair', T.mk_implies(eq(D(pe), I(1)), lt(PAY(pe), cs))),
+                 ('prev-becomes-current', TRUE if becomes else FALSE)]
+        goals += [(r, g) for r, g in witness_step_goals(w, cur.get(w, w), cs, ce)]
+        for role, goal in goals:
+            okg = ip.entails(bst, goal)
+            ctx.obligation(okg)
+            (ctx.ok if okg else ctx.violation)('C11.R5', 'C11.R5/try_from_iter/step:%s' % role, fn.path, fn.site(), {'leaf_constraints': [T.show(f)[:120] for f in bst.pc][-8:], 'not_entailed': T.show(goal)[:200]}, cfg)
+    kinds = set()
+    for o in outs:
+        if o.kind != 'ret':
+            dead = ip.unsat(o.state.pc, tuple(ip.resolve_hyps(o.state, hyps(o.state, TRUE))))
+            ctx.obligation(dead)
+            (ctx.ok if dead else ctx.violation)('C11.R5', 'C11.R5/try_from_iter/panic:%s' % panic_role(o), fn.path, fn.site(), {'leaf_constraints': pc_text(o)}, cfg)
+            continue
+        v = variant_of(ip, o.state, o.value)
+        if v is None:
+            ctx.unanalysable('C11.R5', 'C11.R5/try_from_iter/leaf-shape', fn.path, fn.site(), None, cfg)
+            continue
+        if v[0] == 'Err':
+            kinds.add('err')
+            ev = variant_of(ip, o.state, v[1][0])
+            heads_ = list(dict.fromkeys(t for f in o.pc for t in T.subterms(f) if t[0] == 'var' and '@bb' in t[1] and T.TYPES.get(t) == 'usize'))
+            goal = any_(*[AND(le(I(1), k), le(S(k), E(T.mk_sub(k, I(1))))) for k in heads_]) if heads_ else FALSE
+            okg = ev is not None and ev[0] == 'NonDisjointCharSets' and ip.entails(o.state, goal)
+            ctx.obligation(okg)
+            (ctx.ok if okg else ctx.violation)('C11.R5', 'C11.R5/try_from_iter/error-only-for-an-overlapping-adjacent-pair', fn.path, fn.site(), {'leaf_constraints': pc_text(o)}, cfg)
+        else:
+            part = v[1][0]
+            lst = ip.to_term(o.state, field(ip, o.state, part, 'list'))
+            wv = field(ip, o.state, part, 'comp_witness')
+            kinds.add('ok')
+            okg = lst == V and loop_exhausted(ip, o.state)
+            ctx.obligation(okg)
+            (ctx.ok if okg else ctx.violation)('C11.R5', 'C11.R5/try_from_iter/returns-the-sorted-vector', fn.path, fn.site(), {'list': T.show(lst)[:160], 'witness': T.show(wv)[:80]}, cfg)
+            # the empty input: nothing was seen, the witness is still 0
+            oke = isinstance(wv, tuple) and ip.entails(o.state, T.mk_implies(eq(T.typed(('len', V), 'usize'), I(0)), eq(wv, I(0))))
+            kinds.add('ok-empty')
+            ctx.obligation(oke)
+            (ctx.ok if oke else ctx.violation)('C11.R5', 'C11.R5/try_from_iter/empty-input-gives-empty-partition', fn.path, fn.site(), {'witness': T.show(wv)[:80]}, cfg)
+    for need in ('err', 'ok', 'ok-empty'):
+        okn = need in kinds
+        ctx.obligation(okn)
+        (ctx.ok if okn else ctx.violation)('C11.R5', 'C11.R5/try_from_iter/outcome-present:%s' % need, fn.path, fn.site(), None, cfg)
+    delegates(ctx, cfg)
